@@ -91,6 +91,8 @@ func checkC01(c *Ctx) {
 	r016n(c, "R01.6 rotation-subset-of-healthy")
 	r017(c, "R01.7 failure-is-reported")
 	r171b(c)
+	// the health wait ends at the deploy timeout: one timer per wait, created outside any loop (shared with C17)
+	r171(c, "R01.8 health-wait-bounded-by-the-deploy-timeout")
 }
 
 // R01.1 health gate dominates publication.
